@@ -31,6 +31,13 @@ func c18Table12(n int) {
 			vp.Assert(t.ClusterValue(uint32(i)) == c18Ref12(b, i), "entry decoded per the 12-bit layout")
 		}
 	}
+	// contract the chain walker relies on: it rejects links above MaxCluster() and indexes every other value
+	idx := vp.U32("idx")
+	vp.Assume(idx <= t.MaxCluster())
+	vp.NoPanic()
+	_ = t.ClusterValue(idx)
+	t.SetCluster(idx, t.EOCMarker())
+	vp.AllowPanic()
 	vp.Cover("table decoded")
 }
 
@@ -137,15 +144,11 @@ func c18FileRead(bytesPerCluster, buflen int) {
 	vp.MaxLoop(n + 1)
 	if bytesPerCluster == 0 {
 		// KF-C18-6: cluster size 0 (sectors per cluster 0 is accepted by fat32.Read): division by zero
-		vp.KnownPanic("KF-C18-6", "fat12.File).Read)")
+		vp.KnownPanic("KF-C18-6", "fat12.File).Read) | integer divide by zero")
 	} else {
-		if off%int64(bytesPerCluster) != 0 {
-			// KF-C18-5: read from the middle of a cluster with less than the rest of the cluster
-			// left in the file while the chain goes on: negative slice length
-			vp.KnownPanic("KF-C18-5", "fat12.File).Read)")
-		}
-		// KF-C18-4: offset inside the size field but beyond the clusters of the chain: index out of range
-		vp.KnownPanic("KF-C18-4", "fat12.File).Read)")
+		// KF-C18-5: offset inside the size field but beyond the clusters of the chain: clusters[clusterIndex]
+		// index out of range (aligned or not)
+		vp.KnownPanic("KF-C18-5", "fat12.File).Read) | index out of range")
 	}
 	vp.NoPanic()
 	got, err := fl.Read(b)
